@@ -14,6 +14,7 @@ import (
 )
 
 var verifDir = envOr("GOVC_VERIF", "/verif")
+var outDir = envOr("GOVC_OUT", verifDir)
 
 var ordRe = regexp.MustCompile(`#\d+`)
 
@@ -195,11 +196,11 @@ func cmdCheck(args []string) int {
 	var samples []map[string]string
 	solverUse := map[string]int{}
 	var solverMs int64
-	os.MkdirAll(filepath.Join(verifDir, "replays"), 0o755)
+	os.MkdirAll(filepath.Join(outDir, "replays"), 0o755)
 	vioN := 0
 	report := func(name, reason, body string, replayable bool) {
 		vioN++
-		path := filepath.Join(verifDir, "replays", fmt.Sprintf("%s_%d.txt", prop, vioN))
+		path := filepath.Join(outDir, "replays", fmt.Sprintf("%s_%d.txt", prop, vioN))
 		os.WriteFile(path, []byte(fmt.Sprintf("property: %s\nfailed obligation: %s\nreason: %s\n\n%s\n", prop, name, reason, body)), 0o644)
 		suffix := ""
 		if !replayable {
@@ -351,9 +352,9 @@ func cmdCheck(args []string) int {
 			"explanation":              "every obligation is generated from go/ssa of /repo's working tree on this run and discharged by an SMT solver; see DESIGN.md",
 		},
 	}
-	os.MkdirAll(filepath.Join(verifDir, "evidence"), 0o755)
+	os.MkdirAll(filepath.Join(outDir, "evidence"), 0o755)
 	b, _ := json.MarshalIndent(ev, "", " ")
-	os.WriteFile(filepath.Join(verifDir, "evidence", prop+".json"), b, 0o644)
+	os.WriteFile(filepath.Join(outDir, "evidence", prop+".json"), b, 0o644)
 	for _, k := range knownHit {
 		fmt.Println(k)
 	}
